@@ -6,8 +6,13 @@ CONSTANTS
   Thr = 10
   Mode = "all"
   Contig = TRUE
+  Hows = {"set","obs"}
+  NatStep = 10
+  ObsPos = {9,11,19,21,31}
   Export = TRUE
 INVARIANT TxPointwiseLicensed
 INVARIANT EmPointwiseLicensed
+INVARIANT TxRunLicensed
+INVARIANT EmRunLicensed
 CONSTRAINT Emit
 CHECK_DEADLOCK FALSE
